@@ -15,6 +15,7 @@
 -/
 import HL.Lemmas.Lockset
 import HL.Generated.AccessExpect
+import HL.Spec.Bg
 namespace HL.Props.C14
 open HL.Lockset HL.Lemmas.Lockset HL.Generated.Access HL.Generated.AccessExpect
 
@@ -233,6 +234,29 @@ theorem translator_facts :
     noSpawnInInit = true ∧ constructedOK = true := by
   refine ⟨by decide, by decide, by decide, by decide, by decide +kernel, by decide +kernel⟩
 
+/-- The locations a background goroutine (publish / refresh) writes after publication, from the
+    regenerated table.  Everything else a handler reads is written by the handler thread itself
+    (or during initialisation), so a response can deviate from the one computed from the
+    document state only through these: the settings and the CLI client (configuration,
+    C19), the loader cache and limits (only consulted by loads), the workspace's
+    declared-account / commodity caches (recomputed from the workspace state under its lock),
+    and `Server.resolved` — the subject of `response_is_function_of_state_partial` below. -/
+def backgroundWrites : List Loc :=
+  ((accessTable.filter fun r => (r.role == .publish || r.role == .refresh) && r.kind == .write && !r.fresh).map
+    (·.loc)).eraseDups
+
+theorem background_writes_exactly :
+    backgroundWrites = [.Loader_cache, .Loader_limits, .Server_cliClient, .Server_resolved,
+      .Server_settings, .Workspace_cachedAccounts, .Workspace_cachedCommodities] := by
+  decide +kernel
+
+/-- The handlers that read `Server.resolved` are the ones the `stale-resolved` guard names
+    (harness kinds completion / hover / definition / references; Rename, InlineCompletion and
+    the accessor GetResolved are not exercised by the harness). -/
+theorem resolved_readers :
+    resolvedReaders = ["Completion", "Definition", "GetResolved", "Hover", "InlineCompletion",
+      "References", "Rename"] := by decide
+
 /-- **C14, race part.**  Every pool of threads that is an instance of the extracted table —
     any number of publish and refresh goroutines, any interleaving with the serial handler
     thread — never reaches a state with a data race. -/
@@ -294,6 +318,125 @@ theorem unfixed_race_reachable : ∃ σ, Reachable racyPool σ ∧ Race racyPool
     .step r1 ⟨1, .spawn 2, rfl, rfl, trivial, rfl⟩
   refine ⟨σ2, r2, 1, 2, ⟨0, .read, false, false⟩, ⟨0, .write, false, false⟩, by decide, rfl, rfl, rfl, rfl, ?_⟩
   exact ⟨rfl, Or.inr rfl, by decide, rfl, rfl⟩
+
+/-! ### Responses are computed from the state at the moment of the request -/
+
+section bg
+open HL.Bg
+variable {Text Res Resp : Type}
+
+/-- Invariant of the background-task model, per document: while no task overlap has happened,
+    at most one task is in flight, it carries the current text, and with nothing in flight
+    the stored result is the one of the current text. -/
+def BgInv (load : Text → Res) (σ : St Text Res) (u : Nat) : Prop :=
+  σ.overlap u = false →
+    (σ.pending u).length ≤ 1 ∧ (∀ t ∈ σ.pending u, σ.docs u = some t) ∧
+    (σ.pending u = [] → ∀ t, σ.docs u = some t → σ.resolved u = some (load t))
+
+theorem bgInv_init (load : Text → Res) (u : Nat) : BgInv load (St.init : St Text Res) u := by
+  intro _
+  refine ⟨by simp [St.init], by simp [St.init], ?_⟩
+  intro _ t h
+  simp [St.init] at h
+
+theorem bgInv_step (load : Text → Res) (σ : St Text Res) (e : Ev Text) (u : Nat)
+    (h : BgInv load σ u) : BgInv load (step load σ e) u := by
+  cases e with
+  | change u' t =>
+    by_cases hu : u = u'
+    · subst hu
+      intro ho
+      simp only [step, Bg.upd, if_true, decide_eq_false_iff_not, Nat.not_lt, Nat.le_zero_eq,
+        List.length_eq_zero_iff] at ho
+      simp only [step, Bg.upd, if_true, ho, List.nil_append]
+      refine ⟨by simp, by simp, by simp⟩
+    · intro ho
+      simp only [step, Bg.upd, hu, if_false] at ho ⊢
+      exact h ho
+  | finish u' i =>
+    simp only [step]
+    split
+    · exact h
+    · rename_i t ht
+      by_cases hu : u = u'
+      · subst hu
+        intro ho
+        simp only [Bg.upd, if_true] at ho ⊢
+        obtain ⟨hlen, hdoc, _⟩ := h ho
+        -- at most one task in flight and index i hits it: it is the only one, i = 0
+        match hp : σ.pending u, hlen, ht with
+        | [], _, ht => simp at ht
+        | [t0], _, ht =>
+          have hi : i = 0 := by
+            cases i with
+            | zero => rfl
+            | succ n => simp at ht
+          subst hi
+          simp only [List.getElem?_cons_zero, Option.some.injEq] at ht
+          subst ht
+          have hd := hdoc t0 (by simp [hp])
+          refine ⟨by simp, by simp, ?_⟩
+          intro _ t' ht'
+          rw [hd] at ht'
+          injection ht' with ht'
+          rw [ht']
+        | _ :: _ :: _, hl, _ => simp at hl
+      · intro ho
+        simp only [Bg.upd, hu, if_false] at ho ⊢
+        exact h ho
+
+theorem bgInv_run (load : Text → Res) (es : List (Ev Text)) (u : Nat) :
+    BgInv load (run load es) u := by
+  unfold run
+  suffices ∀ σ : St Text Res, BgInv load σ u → BgInv load (es.foldl (step load) σ) u from
+    this _ (bgInv_init load u)
+  induction es with
+  | nil => intro σ h; exact h
+  | cons e r ih => intro σ h; exact ih _ (bgInv_step load σ e u h)
+
+/-- **Responses are a function of the document state — guarded.**  For every history of
+    opens / changes and every scheduling of the background tasks (any order of completion),
+    for every handler `h` and every loader: if the requested document is settled (no task of
+    it in flight, and no task of it was started while another one was in flight) the response
+    equals the response computed from the document text alone. -/
+theorem response_is_function_of_state_partial (load : Text → Res) (h : Text → Option Res → Resp)
+    (es : List (Ev Text)) (u : Nat) (hs : settled (run load es) u = true) :
+    respond h (run load es) u = specRespond load h (run load es) u := by
+  simp only [settled, Bool.and_eq_true, List.isEmpty_iff, Bool.not_eq_true'] at hs
+  obtain ⟨_, _, hres⟩ := bgInv_run load es u hs.2
+  unfold respond specRespond
+  cases hd : (run load es).docs u with
+  | none => rfl
+  | some t => simp [hres hs.1 t hd]
+
+/-- Non-vacuity: a history with two documents and interleaved completions is settled. -/
+example : settled (run (fun t : Nat => t + 100)
+    [.change 0 1, .change 1 5, .finish 1 0, .finish 0 0, .change 0 2, .finish 0 0]) 0 = true := by
+  decide
+
+/-- Known finding `stale-resolved`, first form: a request handled while the document's task is
+    still in flight is answered from the previous text's journal. -/
+theorem stale_resolved_counterexample :
+    let load := fun t : Nat => t + 100
+    let h := fun (t : Nat) (r : Option Nat) => (t, r)
+    let es : List (Ev Nat) := [.change 0 1, .finish 0 0, .change 0 2]
+    respond h (run load es) 0 = some (2, some 101) ∧
+    specRespond load h (run load es) 0 = some (2, some 102) := by
+  decide
+
+/-- Known finding `stale-resolved`, second form: two changes in a row, the later task finishes
+    first, the earlier one overwrites its result — with nothing in flight any more the stored
+    journal is the one of the OLD text, and stays so until the next change. -/
+theorem stale_after_quiescence_counterexample :
+    let load := fun t : Nat => t + 100
+    let h := fun (t : Nat) (r : Option Nat) => (t, r)
+    let es : List (Ev Nat) := [.change 0 1, .change 0 2, .finish 0 1, .finish 0 0]
+    (run load es).pending 0 = [] ∧
+    respond h (run load es) 0 = some (2, some 101) ∧
+    specRespond load h (run load es) 0 = some (2, some 102) := by
+  decide
+
+end bg
 
 /-! ### Non-vacuity of the hypotheses of `server_race_free` / `server_deadlock_free` -/
 
